@@ -696,6 +696,11 @@ class _Gen:
             self.prod["Stmt.while"] += 1
             cond = self.fit_expr(sc, room - len("while ()"))
             self.stmt_line("while", depth, "while (%s)" % cond)
+            if self.chance(0.3):
+                # empty loop body: the `;` alone on the next line, one level deeper
+                self.prod["Stmt.while_empty"] += 1
+                self.stmt_line("semicolon", depth + 1, ";")
+                return 2
             saved, sc.in_while = sc.in_while, True
             used = 1 + self.block(sc, depth, budget - 1, True)
             sc.in_while = saved
